@@ -359,6 +359,15 @@ fn exhaustive_read(which: usize, rep: &mut Report) {
             run_read_case(&ReadCase { tape: long.clone(), boundaries: vec![start], faults: vec![(start, ReadFault::Interrupted, k), (523 + 521 + start.min(500), ReadFault::Interrupted, k)], reads: 6, label: "maximum_length_frames_interrupted" }, rep);
         }
     }
+    // thousands of interrupted reads during ONE line (a short one and the longest one): "however often"
+    if which == 0 {
+        for times in [300usize, 4_000, 5_000, 70_000] {
+            let short = [refs::enc_crlf(0x0003, 0x04, &[0x0F]), refs::enc_crlf(0x0004, 0x04, &[0x10]), b":".to_vec()].concat();
+            run_read_case(&ReadCase { tape: short.clone(), boundaries: vec![], faults: vec![(7, ReadFault::Interrupted, times)], reads: 3, label: "thousands_of_interrupts_in_one_line" }, rep);
+            run_read_case(&ReadCase { tape: short, boundaries: vec![], faults: vec![(0, ReadFault::Interrupted, times / 2), (14, ReadFault::Interrupted, times / 2), (15, ReadFault::Interrupted, 3)], reads: 3, label: "thousands_of_interrupts_in_one_line" }, rep);
+            run_read_case(&ReadCase { tape: long.clone(), boundaries: vec![], faults: vec![(100, ReadFault::Interrupted, times / 3), (400, ReadFault::Interrupted, times / 3), (522, ReadFault::Interrupted, times / 3), (523 + 10, ReadFault::Interrupted, times)], reads: 6, label: "thousands_of_interrupts_in_one_line" }, rep);
+        }
+    }
     rep.count("exhaustive_read_sets_done");
 }
 
@@ -649,6 +658,7 @@ pub fn run(ctx: &Ctx) -> Outcome {
         floor("compositions of a 14-byte stream all enumerated (8192)", report.get("compositions_enumerated") >= 8192, report.get("compositions_enumerated")),
         floor("exhaustive write set", report.get("exhaustive_write_sets_done") == 1, report.get("exhaustive_write_sets_done")),
         floor("the same frame on consecutive lines; wrong terminators made of CR / blank / tab", report.get("lines/same_frame_as_previous_line") > 1000 && report.get("lines/doubled_cr") > 100 && report.get("lines/blank_near_terminator") > 100, report.get("lines/same_frame_as_previous_line")),
+        floor("300 to 70 000 interrupted reads during one line", report.get("read_cases/thousands_of_interrupts_in_one_line") == 12, report.get("read_cases/thousands_of_interrupts_in_one_line")),
         floor("maximum-length lines read through 1..6 interrupted reads", report.get("read_cases/maximum_length_frames_interrupted") == 84, report.get("read_cases/maximum_length_frames_interrupted")),
         floor("70 000 lines through one reader and 70 000 frames into one sink", report.get("marathon_lines_read") == 70_000 && report.get("marathon_frames_written") == 70_000, format!("{} / {}", report.get("marathon_lines_read"), report.get("marathon_frames_written"))),
         floor("multi-frame streams", report.get("multi_frame_streams") > 0, report.get("multi_frame_streams")),
